@@ -19,6 +19,7 @@ import (
 	"pgregory.net/rapid"
 
 	"verif/harness/pat"
+	"verif/harness/ref"
 	"verif/harness/rig"
 )
 
@@ -82,6 +83,8 @@ var toggled = []struct{ pattern, path string }{
 	{"/keep/dd", "/keep/dd"}, {"/keep/a/deep", "/keep/a/deep"},
 	// rivals: the same routes under other parameter names - a router never holds both of a pair
 	{"/keep/{uid}/y", "/keep/v1/y"}, {"/k/{a2}/z", "/k/a/z"}, {`/r/{n:\d+}/a`, "/r/5/a"}, {`/r/{m:\d+}/a`, "/r/5/a"},
+	// the other spelling of a parameter without a rule
+	{"/e/{id:}", "/e/v1"}, {"/e2/{-z:}/q", "/e2/q/q"},
 }
 
 // rivalPairs: two toggled patterns that are identical up to parameter names.
@@ -649,6 +652,57 @@ func runProgram(p Program) (map[string]float64, *rig.Violation) {
 			o := rig.Serve(front, rig.Req{Method: u.methods[0], Path: path})
 			if o.Panicked || o.BaseKind != "route" || o.BaseID != uid[u.pattern] || !rig.EqualParams(o.Params, want) {
 				fail(rig.Violf("untouched-route-changed", "after all goroutines finished %s %s: kind=%s handler=%s params=%v panicked=%v, want handler %s with %v", u.methods[0], path, o.BaseKind, o.BaseID, o.Params, o.Panicked, uid[u.pattern], want))
+			}
+		}
+		// a toggled route that only one writer ever touches has, in the end, the state that writer's own operations
+		// leave behind when run one after the other - whatever the other goroutines did meanwhile
+		for ti, tg := range toggled {
+			if rival[tg.pattern] != "" {
+				continue
+			}
+			owner, owners := -1, 0
+			for wi, ops := range p.Writers {
+				for _, op := range ops {
+					touches := (op.Kind == "handle" || op.Kind == "remove" || op.Kind == "removeM") && op.P == ti ||
+						op.Kind == "cleanPrefix" && strings.HasPrefix(tg.pattern, cleanPrefixes[op.P])
+					if touches && owner != wi {
+						owner = wi
+						owners++
+					}
+				}
+			}
+			if owners != 1 || p.Rounds > 1 {
+				continue
+			}
+			tb := ref.NewTable(p.Trace)
+			for _, i := range p.Pre {
+				if i == ti {
+					tb.Handle(tg.pattern, "pre", []string{"GET"})
+				}
+			}
+			for _, op := range p.Writers[owner] {
+				switch {
+				case op.Kind == "handle" && op.P == ti:
+					if tb.RejectReason(tg.pattern, op.Methods) == "" {
+						tb.Handle(tg.pattern, "w", op.Methods)
+					}
+				case op.Kind == "remove" && op.P == ti:
+					tb.Remove(tg.pattern)
+				case op.Kind == "removeM" && op.P == ti:
+					if len(op.Methods) == 0 {
+						tb.Remove(tg.pattern)
+					} else {
+						tb.Remove(tg.pattern, op.Methods...)
+					}
+				case op.Kind == "cleanPrefix" && strings.HasPrefix(tg.pattern, cleanPrefixes[op.P]):
+					tb.Remove(tg.pattern)
+				}
+			}
+			got, listed := routes[tg.pattern]
+			if tb.R[tg.pattern] == nil && listed {
+				fail(rig.Violf("single-writer-final-state", "only writer %d touches %q and its operations, run in order, end with the route removed; after all goroutines finished Routes() lists it with %v", owner, tg.pattern, got))
+			} else if tb.R[tg.pattern] != nil && !rig.EqualSets(got, tb.AllowSet(tg.pattern)) {
+				fail(rig.Violf("single-writer-final-state", "only writer %d touches %q and its operations, run in order, end with methods %v; after all goroutines finished Routes() shows %v", owner, tg.pattern, tb.AllowSet(tg.pattern), got))
 			}
 		}
 		for _, tg := range toggled {
